@@ -167,4 +167,20 @@ META = {
         "note": _common_note + "tantivy's TextAnalyzer plumbing and Token struct are not modelled; NUL-containing text is emitted as one token (fix F-C16).",
         "technique": "translator (exhaustive tabulation -> regenerated Lean table, decide +kernel) + Lean 4 proof over byte-offset lists + differential correspondence",
     },
+    "C06": {
+        "text": "Unbounded Lean theorems on the mirrored tag path (tag entries merged along suffixes with boundary entries, "
+                "per-(token, rel) hash maps, recorded automaton states, zip-added class vectors in fixed/variable layout, the "
+                "range_start loop, argmax with class offsets): for every well-formed model and tag models, every build "
+                "configuration, every text and ANY boundary vector carried after prediction (incl. unknowns, as filters may write), "
+                "fill_tags does not panic, sets the tag count to the widest tag model, gives every unknown-free token with a tag "
+                "model, per category, the first-best candidate of bias + sum of the tag n-gram weights occurring at their stated "
+                "offset from the token's last character (single candidate / none for short categories), every other slot no tag, "
+                "and nothing else changes (C06_tags, C06_argmax); with score storing, tag_candidates reports exactly those sums, "
+                "0 for single candidates (C06_candidates); a model without categories leaves the sentence as is (C06_no_categories). "
+                "Tied to /repo by random tag models (ties, 0/1/2/3/9 candidates, empty boundary models) with edited boundaries and a "
+                "brute-force per-token classifier oracle in the harness.",
+        "design_ref": "DESIGN.md §6 C06",
+        "note": _common_note + "daachorse contract as in C01 (longest pattern per end position is what the recorded state holds).",
+        "technique": "Lean 4 proof (merge invariant instantiated at (token, rel, class) evaluations; loop = specSeg; row non-interference) + differential correspondence",
+    },
 }
